@@ -62,6 +62,7 @@ def run_one(plan, executor, judge, generators, want_log, tag):
         "stats": verdict["stats"],
         "fs": result["fs"],
         "steps": len(result["log"]),
+        "group": plan.get("world_group"),
         "cover": (plan.get("meta") or {}).get("cover") or [],
         "iso_outcomes": {k: executor.digest(v) for k, v in comp["iso_outcomes"].items()},
     }
@@ -99,6 +100,14 @@ def main():
                 n += 1
                 outs.append(run_one(plan, executor, judge, generators,
                                     req.get("want_log", False), n))
+            sys.stdout.write(json.dumps({"results": outs}) + "\n")
+        elif req["t"] == "plans":  # explicit plans in order, one interpreter (history replay)
+            outs = []
+            for k, plan in enumerate(req["plans"]):
+                n += 1
+                last = k == len(req["plans"]) - 1
+                outs.append(run_one(plan, executor, judge, generators,
+                                    bool(req.get("want_log_last")) and last, n))
             sys.stdout.write(json.dumps({"results": outs}) + "\n")
         elif req["t"] == "plan":
             n += 1
